@@ -104,6 +104,7 @@ def _place(items, dirs):
 def execute(case, ctx):
     if 'skip' in case:
         return Outcome(classes=['skipped'], evals=0)
+    window = []
     tier = (ctx or {}).get('tier', 'quick')
     seeds = SEEDS_THOROUGH if tier == 'thorough' else SEEDS_QUICK
     if case['kind'] == 'vocab':
@@ -119,6 +120,8 @@ def execute(case, ctx):
         fname, text = isagen.dump_isa(cfg, 'yaml')
         files = {'src/main.asm': c01.build_program(c), fname: text}
         idirs = []
+        # the image window around the two placements (the address may be anywhere in a 32-bit space)
+        window = ['-s', str(c['placements'][0]['base']), '-e', str(c['placements'][1]['base'] + c['size_intended'] + 1)]
         nreg = len(cfg['general'].get('registers') or [])
         nmn = len(cfg['instructions'])
         rich = nreg >= 3 or nmn >= 2
@@ -149,6 +152,10 @@ def execute(case, ctx):
             idirs = idirs + ['inc_l']
         variants = [('seed' + s, {'PYTHONHASHSEED': s}, idirs, root) for s in seeds]
         variants.append(('rev-I', {'PYTHONHASHSEED': '1'}, list(reversed(idirs)) + idirs[:1], root))
+        if idirs:
+            # the main file's own directory named as an include directory too, in the middle or at the end
+            variants.append(('own-dir-I-mid', {'PYTHONHASHSEED': '1'}, idirs[:1] + ['src'] + idirs[1:], root))
+            variants.append(('own-dir-I-last', {'PYTHONHASHSEED': '0'}, list(reversed(idirs)) + ['src'], root))
         variants.append(('cwd', {'PYTHONHASHSEED': '2'}, idirs, os.path.join(root, 'elsewhere')))
         variants.append(('env', {'PYTHONHASHSEED': '3', 'LANG': 'tr_TR.UTF-8', 'LC_ALL': 'C', 'TZ': 'Pacific/Kiritimati',
                                  'ZZZ_EXTRA': 'x', 'COLUMNS': '20', 'PYTHONUTF8': '0'}, idirs, root))
@@ -158,6 +165,7 @@ def execute(case, ctx):
             os.makedirs(outdir)
             argv = ['compile', '-c', os.path.join(root, fname), '-o', os.path.join(outdir, 'out.bin'),
                     '--pretty-print', '-t', case['fmt'], '--pretty-print-output', os.path.join(outdir, 'pp.txt')]
+            argv += window
             for d in order:
                 argv += ['-I', os.path.join(root, d)]
             argv.append(os.path.join(root, 'src/main.asm'))
@@ -182,10 +190,13 @@ def execute(case, ctx):
         shutil.rmtree(root, ignore_errors=True)
     base = results[0]
     findings = []
+    if any(r[1] == 'timeout' for r in results):
+        # a run that hit the time limit decides nothing about determinism
+        return Outcome([], False, ['kind:' + case['kind'], 'inconclusive:a-variant-hit-the-time-limit'], len(results))
     for name, code, outs, err in results[1:]:
         if code != base[1] or outs != base[2]:
             what = 'exit-status' if code != base[1] else ('image' if outs.get('out.bin') != base[2].get('out.bin') else 'pretty-print')
-            kind = 'hash-seed' if name.startswith('seed') else name
+            kind = 'hash-seed' if name.startswith('seed') else 'rev-I' if name.startswith('own-dir-I') else name
             detail = {'sources': {k: v for k, v in files.items() if k.endswith('.asm')}, 'format': case['fmt'],
                       'baseline': {'variant': base[0], 'exit': base[1], 'stderr': base[3],
                                    'outputs': {k: v[:200].hex() for k, v in base[2].items()}},
